@@ -85,6 +85,46 @@ class Slice:
         self.value = value
 
 
+def handled_continuation(fn, bid, callnode):
+    """blocks of fn executed only when the dispatch call returned something
+    else than UBASE_ERR_UNHANDLED: (first block, set of blocks) or None"""
+    var = None
+    for st in fn.stmts(bid):
+        if st.get('k') == 'decl':
+            for v in st['vars']:
+                if isinstance(v.get('init'), dict) and any(y is callnode for y in walk(v['init'])):
+                    var = v['n']
+        elif is_assign(st) and any(y is callnode for y in walk(st['rhs'])):
+            l = strip(st['lhs'])
+            if isinstance(l, dict) and l.get('k') == 'ref':
+                var = l['n']
+    if var is None:
+        return None
+    # the test may sit in this block or in a following straight-line block
+    b = bid
+    for _ in range(3):
+        c = fn.cond(b)
+        if c:
+            n = strip_all_casts(c[0])
+            from .facts import strip_expect
+            n, neg = strip_expect(n)
+            if isinstance(n, dict) and n.get('k') == 'bin' and n.get('op') in ('!=', '==') and 'lhs' in n:
+                l = strip_all_casts(n['lhs'])
+                if isinstance(l, dict) and l.get('k') == 'ref' and l['n'] == var and enum_name(n['rhs']) == 'UBASE_ERR_UNHANDLED':
+                    handled_true = (n['op'] == '!=') != neg
+                    hs, us = (c[1], c[2]) if handled_true else (c[2], c[1])
+                    if hs is None:
+                        return None
+                    blocks = fn.reachable_from(hs) - (fn.reachable_from(us) if us is not None else set()) - {fn.exit}
+                    return (hs, blocks) if blocks else None
+            return None
+        nxt = [s for s in fn.succ[b] if s is not None]
+        if len(nxt) != 1:
+            return None
+        b = nxt[0]
+    return None
+
+
 def command_slices(prog, unit, root, depth=0, seen=None):
     """returns ({command name: [Slice]}, info) for the control function root,
     following calls that pass the command parameter on"""
@@ -129,6 +169,12 @@ def command_slices(prog, unit, root, depth=0, seen=None):
                 sub, subinfo = command_slices(prog, callee.unit, callee, depth + 1, seen)
                 for k, v in sub.items():
                     res.setdefault(k, []).extend(v)
+                # code of the root that runs only when the callee *handled* the
+                # command belongs to every command the callee handles
+                hb = handled_continuation(root, bid, x)
+                if hb:
+                    for k in sub:
+                        res.setdefault(k, []).append(Slice(root, hb[1], hb[0], k, None))
                 info['dispatchers'] += subinfo['dispatchers']
                 info['undecided'] += subinfo['undecided']
     return res, info
